@@ -1,6 +1,7 @@
 package main
 
 import (
+	"runtime"
 	"runtime/debug"
 	"runtime/pprof"
 	"encoding/json"
@@ -62,6 +63,10 @@ func (e *Engine) findFunc(name string) *ssa.Function {
 }
 
 func main() {
+	// the generation of verification conditions has a live heap of a few GB at its peak and little afterwards: without
+	// a limit the collector lets garbage pile up to twice that peak
+	debug.SetGCPercent(50)
+	debug.SetMemoryLimit(5 << 30)
 	if len(os.Args) < 2 {
 		fatal("usage: govc check|dump|list ...")
 	}
@@ -240,6 +245,7 @@ func cmdCheck(args []string) {
 	if !*keep {
 		rep.WorkDir = cfg.WorkDir
 	}
+	runtime.GC()
 	e.solveAll(obls, axioms, cfg)
 	if *tier == "thorough" {
 		// stability: re-prove under other seeds; an obligation must stay discharged
